@@ -96,6 +96,7 @@ pub fn shared_stream_spaces(ctx: &Ctx, st: &mut Local, f: Sink) {
     e2_crossblock(ctx, "E2s", st, f);
     e3_dynspace(ctx, "E3", st, f);
     e3_pairs(ctx, "E3pair", st, f);
+    e3_tails(ctx, "E3tail", st, f);
     e5_devspace(ctx, "E5", &dev_specs(ctx), st, f);
     // one reference per stream at the length / distance boundaries
     {
@@ -535,6 +536,7 @@ pub fn run_c07(ctx: &Ctx, st: &mut Local) {
     e2_padspace(ctx, "E2p", st, &mut f);
     e3_dynspace(ctx, "E3", st, &mut f);
     e3_pairs(ctx, "E3pair", st, &mut f);
+    e3_tails(ctx, "E3tail", st, &mut f);
     e2_crossblock(ctx, "E2s", st, &mut f);
     all_literals(ctx, "Lits", st, &mut f);
     let dists = if ctx.quick() { e4_quick_dists() } else { (1..=32768u32).map(|d| d as u16).collect() };
